@@ -320,8 +320,41 @@ def positional(ctx):
     ldom = _final_domain(sh, L)
     reads = [n for s in walk.body for n in walk_local(s) if isinstance(n, ast.Subscript) and dotted(n.value) == "args" and dotted(n.slice) == idx_var and isinstance(n.ctx, ast.Load)]
     ctx.need(reads, "no positional read args[<index>] in the walk loop")
+
+    # `index < <number of positional-capable parameters>` says the same as `name not in <keyword-only list>` (keyword-only
+    # parameters come last in the walk list) - provided the count is exactly the positional-capable kinds AND is taken when
+    # the measured lists have their final content (after the bound-method prepend).  Such atoms are rewritten before the
+    # propositional reasoning; a count taken too early is not, so the tests built on it stay unproved.
+    def _final(expr):
+        defs_, lists_ = [], set()
+        def coll(e, depth=3):
+            for nm in [x for x in ast.walk(e) if isinstance(x, ast.Name)]:
+                if nm.id in sh.list_domain:
+                    lists_.add(nm.id)
+                elif depth > 0:
+                    d_ = [x for x in nodes_of_type(f, ast.Assign) if nm.id in stores_to(x) and not isinstance(x.value, ast.Constant)]
+                    if len(d_) == 1:
+                        defs_.append(d_[0]); coll(d_[0].value, depth - 1)
+        coll(expr)
+        for L_ in lists_:
+            muts = [x for x in nodes_of_type(f, ast.Assign) if L_ in stores_to(x) and not (isinstance(x.value, ast.List) and not x.value.elts)]
+            muts += [enclosing_stmt(c_) for c_ in calls_in(f) if call_attr(c_) in ("append", "insert", "extend") and dotted(c_.func.value) == L_]
+            if any(g.path_exists(g.nodes_of(d_), g.nodes_of(m_)) for m_ in muts for d_ in defs_):
+                return False
+        return True
+
+    class _Rw(ast.NodeTransformer):
+        def visit_Compare(self, node):
+            if len(node.ops) == 1 and isinstance(node.ops[0], ast.Lt) and dotted(node.left) == idx_var and kw_lists:
+                cnt = _kind_count(node.comparators[0], sh, walk)
+                if cnt is not None and {k: c for k, c in cnt.items() if c != 0} == {k: 1 for k in POSITIONAL} and _final(node.comparators[0]):
+                    return ast.copy_location(ast.parse("%s not in %s" % (name_var, kw_lists[0]), mode="eval").body, node)
+            return node
+
+    def rw(t):
+        return ast.fix_missing_locations(_Rw().visit(ast.parse(ast.unparse(t), mode="eval").body))
     for n in reads:
-        conds = [(t, pol) for (_, t, pol) in g.conditions_at(g.nodes_of(n))]
+        conds = [(rw(t), pol) for (_, t, pol) in g.conditions_at(g.nodes_of(n))]
         if ldom <= POSITIONAL:
             ctx.ok(n, "the walk list only holds positional-capable parameters")
             continue
@@ -332,7 +365,7 @@ def positional(ctx):
     raises = [r for s in walk.body for r in walk_local(s) if isinstance(r, ast.Raise) and "Keyword-only" in ast.unparse(r)]
     varargs_names = [n for n, k in sh.scalar_kind.items() if k == {"VAR_POSITIONAL"}]
     for r in raises:
-        conds = [(t, pol) for (_, t, pol) in g.conditions_at(g.nodes_of(r))]
+        conds = [(rw(t), pol) for (_, t, pol) in g.conditions_at(g.nodes_of(r))]
         ok = any(implied(conds, "%s is None" % v, True) for v in varargs_names)
         ctx.check(bool(ok), r, "`keyword-only passed as positional` is raised only when the function has no *args parameter",
                   "`keyword-only passed as positional` is raised even when the function has *args (surplus positionals belong to *args): valid calls such as f(1, 2, 3) for def f(a, *args, k=1) are rejected")
